@@ -24,23 +24,23 @@ Qed.
 
 (* handling a writability event on an empty queue leaves nothing deliverable: no EPOLLOUT busy loop (D32) *)
 Theorem no_idle_spin md s :
-  Inv md s -> closed s = false -> dial s = false -> pw s = WNone -> q s = 0 ->
+  Inv md s -> closed s = false -> dial s = false -> pw s = WNone -> prd s = false -> q s = 0 ->
   deliverable_out md s false = true ->
   deliverable_out md (handle_out md s) false = false.
 Proof.
-  intros HI Hcl Hd Hp Hq Hdel.
+  intros HI Hcl Hd Hp Hprd Hq Hdel.
   assert (Hreg : reg s = true) by (unfold deliverable_out in Hdel; destruct (reg s); auto).
   assert (Hmw : md <> ET -> mout s = wadded s) by (intros; apply flag_agrees with md; auto).
-  assert (Harm : (is_os md && negb (armed s)) = false).
-  { unfold deliverable_out in Hdel. destruct (is_os md); auto. repeat (apply andb_true_iff in Hdel as [Hdel ?]).
+  assert (Harm : (prd s || (is_os md && negb (armed s))) = false).
+  { rewrite Hprd. cbn [orb]. unfold deliverable_out in Hdel. destruct (is_os md); auto. repeat (apply andb_true_iff in Hdel as [Hdel ?]).
     match goal with H : armed s = true |- _ => rewrite H end. reflexivity. }
   unfold handle_out.
   remember (step md s (Deliver false false)) as s1 eqn:E1.
   assert (F1 : q s1 = 0 /\ closed s1 = false /\ dial s1 = false /\ pw s1 = WOut /\ eout s1 = false /\ mout s1 = mout s /\
-               wadded s1 = wadded s /\ reg s1 = true).
+               wadded s1 = wadded s /\ reg s1 = true /\ prd s1 = false).
   { subst s1. cbn [step]. rewrite Hcl, Hp, Hreg. cbn [orb negb andb]. rewrite Harm, Hdel, Hd. cbn [orb negb andb]. simp_proj.
     repeat split; auto. }
-  destruct F1 as (A1 & B1 & C1 & D1 & G1 & M1 & W1 & R1). clear E1.
+  destruct F1 as (A1 & B1 & C1 & D1 & G1 & M1 & W1 & R1 & P1). clear E1.
   remember (step md s1 HandleOut) as s2 eqn:E2.
   assert (F2 : q s2 = 0 /\ closed s2 = false /\ reg s2 = true /\ eout s2 = false /\ (md <> ET -> mout s2 = false) /\
                (is_os md = true -> 0 < owed s2)).
@@ -48,7 +48,8 @@ Proof.
     set (r := release md s1).
     assert (FR : q r = 0 /\ closed r = false /\ reg r = true /\ eout r = false /\ mout r = mout s /\ wadded r = wadded s /\
                  (is_os md = true -> 0 < owed r)).
-    { unfold r, release, set_pw, set_owed. destruct (is_os md); simp_proj; repeat split; auto; intros; try lia; congruence. }
+    { unfold r, release, set_pw, set_owed. rewrite P1. cbn [negb]. rewrite andb_true_r.
+      destruct (is_os md); simp_proj; repeat split; auto; intros; try lia; congruence. }
     destruct FR as (Ar & Br & Rr & Gr & Mr & Wr & Or).
     unfold flush. rewrite Br, Ar. cbn [Nat.eqb].
     destruct (resetRead_fields md r Br Rr) as (X1 & X2 & X3 & X4 & X5 & X6 & X7 & X8).
